@@ -273,6 +273,12 @@ def tables() -> dict:
                 after_build = min(builds) < min(regs)
             break
     t["variantRegisteredAfterBuild"] = after_build
+    # parse_timezone: does the pattern have to match the WHOLE string (fullmatch) or may `$` stop before a trailing newline?
+    t["tzParseFullMatch"] = False
+    for node in ast.walk(ast.parse(_src("mashumaro/core/helpers.py"))):
+        if isinstance(node, ast.FunctionDef) and node.name == "parse_timezone":
+            src = ast.unparse(node)
+            t["tzParseFullMatch"] = ".fullmatch(" in src or "\\Z" in _src("mashumaro/core/helpers.py")
     t["mroWalkSample"] = walk if walk is not None else []
     t["mroFarthestFirst"] = bool(walk) and walk == sorted(walk, reverse=True)
     t["cacheGuardOwnDict"] = len(guards) == 2 and all(g[1] == "if not '{}' in cls.__dict__:" for g in guards)
@@ -332,6 +338,7 @@ def render(t: dict) -> str:
     L.append("def subtypeRegistryPerFormat : Bool := " + ("true" if t["subtypeRegistryPerFormat"] else "false"))
     L.append("/-- in the rescan loop of a discriminated union the variant's unpacker is built BEFORE its tag is registered -/")
     L.append("def variantRegisteredAfterBuild : Bool := " + ("true" if t["variantRegisteredAfterBuild"] else "false"))
+    L.append("def tzParseFullMatch : Bool := " + ("true" if t["tzParseFullMatch"] else "false"))
     L.append("")
     L.append("end Mashu.Generated")
     return "\n".join(L) + "\n"
